@@ -808,7 +808,18 @@ class World:
 
     def _import(self, name, globals=None, locals=None, fromlist=(), level=0):
         if level:
-            return builtins.__import__(name, globals, locals, fromlist, level)
+            # `from ._sibling import f` inside a cloned function: resolve against the module's package and treat it like the
+            # absolute form, so that cloned siblings are used
+            pkg = (globals or {}).get("__package__") or ((globals or {}).get("__name__", "").rpartition(".")[0])
+            try:
+                import importlib.util
+
+                absname = importlib.util.resolve_name("." * level + (name or ""), pkg)
+            except Exception:
+                return builtins.__import__(name, globals, locals, fromlist, level)
+            if not fromlist or not name:
+                return builtins.__import__(name, globals, locals, fromlist, level)
+            name, level = absname, 0
         if fromlist:
             if name in self.ns:
                 return _ModView(self, name)
